@@ -34,8 +34,8 @@ TBegin == /\ Is("fbegin")
 TMk == /\ Is("mk") /\ Step({}, Bump(stat, "marshals")) /\ UNCHANGED <<id, inflight, stored, failedNow, everFailed, attempt>>
 TSs == /\ Is("ss")
        /\ inflight' = inflight \cup {Ev.n}
-       /\ Step((IF ~Ev.hashok THEN {V("a node is written under a name that is not the digest of its bytes")} ELSE {})
-               \cup (IF Cardinality(inflight \cup {Ev.n}) > GateSize THEN {V("more than 40 writes in flight")} ELSE {}),
+       \* (the number of writes in flight is recorded, not judged: C03 does not state the size of the write gate)
+       /\ Step((IF ~Ev.hashok THEN {V("a node is written under a name that is not the digest of its bytes")} ELSE {}),
                [Bump(stat, "stores") EXCEPT !.maxinflight = IF Cardinality(inflight) + 1 > @ THEN Cardinality(inflight) + 1 ELSE @])
        /\ UNCHANGED <<id, stored, failedNow, everFailed, attempt>>
 TSe == /\ Is("se")
